@@ -368,3 +368,22 @@ func H_C09_object_observers_pure() {
 	verifAssert(verifAnd(pa.unchanged(), pb.unchanged()), "a non-mutating object operation leaves receiver and argument unchanged")
 	verifReach("end")
 }
+
+// arguments passed as caller-owned slices (variadic calls with an existing slice) are arguments too: a deriving
+// operation leaves them as they were
+func H_C09_variadic_arguments_unchanged() {
+	o := NewObject("b", 1, "a", 2, "c", NewList(3))
+	keys := []string{"c", "a", "b"}
+	if nondetIntRange(0, 1) == 0 {
+		keys = []string{"b", "c", "a", "a"}
+	}
+	before := append([]string{}, keys...)
+	r := o.Pluck(keys...)
+	ok := len(keys) == len(before)
+	for i := range before {
+		ok = ok && keys[i] == before[i]
+	}
+	verifAssert(ok, "Pluck leaves its arguments unchanged (the caller's key slice keeps its order)")
+	verifAssert(r.Count() == 3 && o.Count() == 3, "Pluck keeps exactly the requested keys and leaves the receiver unchanged")
+	verifReach("end")
+}
